@@ -77,14 +77,17 @@ def main(argv):
         else:
             violations.append(o)
 
-    os.makedirs(os.path.join(HERE, "evidence", "replay"), exist_ok=True)
+    dry = bool(os.environ.get("VERIF_NO_EVIDENCE"))  # tools that try variants on scratch copies do not touch evidence/
+    if not dry:
+        os.makedirs(os.path.join(HERE, "evidence", "replay"), exist_ok=True)
     for o, k in knowns:
         print(f"KNOWN-FINDING: property={pid} {k.get('what', o.what)} [{o.rule} {o.loc()} {o.qual}]")
     for i, o in enumerate(violations):
         rp = os.path.join("evidence", "replay", f"{pid}_{i}.json")
-        with open(os.path.join(HERE, rp), "w") as fh:
-            json.dump({"property": pid, "finding": o.as_dict(), "key": o.key(),
-                       "how_to_replay": f"./check {pid} quick  (static finding: inspect the construct named in 'at'/'in')"}, fh, indent=1)
+        if not dry:
+            with open(os.path.join(HERE, rp), "w") as fh:
+                json.dump({"property": pid, "finding": o.as_dict(), "key": o.key(),
+                           "how_to_replay": f"./check {pid} quick  (static finding: inspect the construct named in 'at'/'in')"}, fh, indent=1)
         print(f"VIOLATION property={pid} replay={rp}")
         print(f"  {o.rule} {o.loc()} in {o.qual}: {o.what} -- {o.detail}")
 
@@ -128,8 +131,9 @@ def main(argv):
         "wall_s": round(time.time() - t0, 3),
         "violations": len(violations),
     }
-    with open(os.path.join(HERE, "evidence", f"{pid}.json"), "w") as fh:
-        json.dump(ev, fh, indent=1, default=str)
+    if not dry:
+        with open(os.path.join(HERE, "evidence", f"{pid}.json"), "w") as fh:
+            json.dump(ev, fh, indent=1, default=str)
     if selftest is not None and selftest.get("errors") and not violations:
         # the checker failed its own two-way test on this tree: analysis broken, never a verdict
         for e in selftest["errors"][:20]:
